@@ -39,7 +39,7 @@ def per_row_filtering_in_index_getters(ctx):
             # every element-producing comprehension / append reachable with a measurement must test the
             # element's own position
             for n in walk_local(f.node):
-                if isinstance(n, ast.ListComp) and _measurement_given(n):
+                if isinstance(n, (ast.ListComp, ast.GeneratorExp)) and _measurement_given(n):
                     gen = n.generators[0]
                     src = norm(gen.iter)
                     if not ("self._fields" in src or "zip(" in src or any(
@@ -189,6 +189,20 @@ def getter_order_agreement(ctx):
     f = ctx.prog.func("Index.get_timestamps", "C07.R4")
     bad = []
     rets = [n for n in walk_local(f.node) if isinstance(n, ast.Return) and isinstance(n.value, ast.ListComp)]
+    helper_args = {}
+    if not rets:
+        # the sort may have been extracted into a private helper: return self._h(zipped)
+        for n in walk_local(f.node):
+            if isinstance(n, ast.Return) and isinstance(n.value, ast.Call) and isinstance(n.value.func, ast.Attribute) \
+                    and is_self_attr(n.value.func):
+                h = ctx.prog.lookup_method("Index", n.value.func.attr)
+                if h is not None and n.value.args:
+                    hp = [p_ for p_ in h.params() if p_ not in ("self", "cls")]
+                    for r2 in walk_local(h.node):
+                        if isinstance(r2, ast.Return) and isinstance(r2.value, ast.ListComp):
+                            rets.append(r2)
+                            if hp:
+                                helper_args[id(r2)] = (hp[0], n.value.args[0])
     if not rets:
         bad.append("no list result")
     for r in rets:
@@ -200,6 +214,8 @@ def getter_order_agreement(ctx):
         key = [k.value for k in src.keywords if k.arg == "key"]
         # the zipped tuples are (timestamp, position): find the component order
         zname = src.args[0]
+        if id(r) in helper_args and isinstance(zname, ast.Name) and zname.id == helper_args[id(r)][0]:
+            zname = helper_args[id(r)][1]
         zvals = assignments_to(f, zname.id) if isinstance(zname, ast.Name) else [zname]
         comp_ok = False
         for zv in zvals:
